@@ -882,8 +882,16 @@ pub trait StoreFor<T: Storable>: Configurable + private::StoreCallbacks<T> {
     fn resolve_id(&self, id: &str) -> Result<T::HandleType, StamError> {
         if let Some(idmap) = self.idmap() {
             if idmap.resolve_temp_ids {
-                if let Some(handle) = resolve_temp_id(id) {
-                    return Ok(T::HandleType::new(handle));
+                if let Some(handle) = resolve_temp_id(id, T::temp_id_prefix()) {
+                    //a temporary ID only resolves if there is actually an item with that handle
+                    if let Some(Some(_)) = self.store().get(handle) {
+                        return Ok(T::HandleType::new(handle));
+                    } else {
+                        return Err(StamError::IdNotFoundError(
+                            id.to_string(),
+                            Self::store_typeinfo(),
+                        ));
+                    }
                 }
             }
             if let Some(handle) = idmap.data.get(id) {
@@ -1812,17 +1820,14 @@ where
 /// they have a form like `!A0` . They start with an exclamation mark,
 /// a capital letter indicates the type (A for Annotation), and a number
 /// corresponds to whatever was the internal handle.
-pub(crate) fn resolve_temp_id(id: &str) -> Option<usize> {
-    let mut iter = id.chars();
-    if let Some('!') = iter.next() {
-        if let Some(x) = iter.next() {
-            if !x.is_uppercase() {
-                return None;
-            }
-            return Some(id[2..].parse().ok()?);
-        }
+/// The `prefix` is the temporary ID prefix of the type that is expected (e.g. `!A` for annotations),
+/// identifiers with another type letter do not resolve.
+pub(crate) fn resolve_temp_id(id: &str, prefix: &str) -> Option<usize> {
+    let number = id.strip_prefix(prefix)?;
+    if number.is_empty() || !number.bytes().all(|b| b.is_ascii_digit()) {
+        return None;
     }
-    None
+    number.parse().ok()
 }
 
 /// Generate an ID with a random 21-byte and ID/URI-safe component
